@@ -77,15 +77,24 @@ func runC01(c *RuleCtx) {
 		if len(rs) == 0 {
 			c.Undecided("R01.1", f.Name, "range over batch messages", f.Decl, "no range over the batch's messages found")
 		}
+		// at least one exhaustive loop over the batch delivers every message and lies on every path
+		good := false
+		why := "no loop over the batch calls notifySubs in every iteration"
+		var site ast.Node = f.Decl
 		for _, r := range rs {
-			ok, why := p.LoopBodyMust(f, r, nil, p.callPred(f, fnNotifySubs))
-			c.Check(ok, "R01.1", f.Name, "notifySubs for every batch message", r, why, why)
+			ok, w := p.LoopBodyMust(f, r, nil, p.callPred(f, fnNotifySubs))
+			if !ok {
+				continue
+			}
 			g := p.Graph(f)
-			pt, _ := g.Locate(r.X)
 			okr, _ := g.MustPass(g.Entry(), PassOpts{}, func(n ast.Node) bool { return n == ast.Node(r.X) })
-			_ = pt
-			c.Check(okr, "R01.1", f.Name, "batch loop reached on every path", r, "the loop is on every path from entry", "a path skips the delivery loop")
+			if okr {
+				good, why, site = true, w+"; the loop is on every path from entry", r
+			} else {
+				why = "the delivery loop is skipped on some path"
+			}
 		}
+		c.Check(good, "R01.1", f.Name, "notifySubs for every batch message", site, why, why)
 	}
 	// R01.2 notifySubs
 	if f := c.MustFn("R01.2", fnNotifySubs); f != nil {
@@ -223,7 +232,7 @@ func runC01(c *RuleCtx) {
 			c.Check(ok, "R01.4", f.Name, "announcement pushed to every peer", r, why, why)
 		}
 	}
-	c.Min["R01.1"] = 4
+	c.Min["R01.1"] = 3
 	c.Min["R01.2"] = 2
 	c.Min["R01.3"] = 8
 	c.Min["R01.4"] = 4
